@@ -121,7 +121,7 @@ namespace lang
             if (key >= capacity_)
                 raise("Key is larger than capacity");
 
-            if (key > size_)
+            if (key >= size_)
                 raise("Key is larger than size, use append() instead");
 
             return data_[key];
@@ -137,7 +137,7 @@ namespace lang
             if (key >= capacity_)
                 raise("Key is larger than capacity!");
 
-            if (key > size_)
+            if (key >= size_)
                 raise("Key is larger than size, use emplace_back() instead!");
 
             return data_[key];
